@@ -3,7 +3,16 @@
 From Verif Require Import Base.Bytes Model.Headers Model.Validate Spec.PathSpec Spec.Signer.
 From Coq Require Import Strings.Byte.
 From Coq Require Import Lia.
-From Verif Require Import Proofs.HeaderProofs.
+From Coq Require Import List Bool NArith ZArith Lia.
+From Coq Require Import Sorting.Permutation Sorting.Sorted.
+From Verif Require Import Base.Bytes Base.Hex Base.Utf8 Crypto.Hmac Time.Calendar Time.Iso8601 Time.Render.
+From Verif Require Import Generated.SrcConsts Model.Errors Model.Uri Model.Query Model.Headers Model.Labels Model.Requirements Model.Validate.
+From Verif Require Import Spec.PathSpec Spec.QuerySpec Spec.Signer Spec.RequestSpec.
+From Verif Require Import Proofs.PathProofs Proofs.QueryProofs Proofs.HeaderProofs Proofs.KeyProofs Proofs.ReqProofs.
+From Verif Require Import Proofs.PipelineProofs Proofs.SelectionProofs.
+From Verif Require Proofs.AuthProofs Proofs.IsoProofs.
+From Verif Require Import Proofs.SoundnessProofs.
+From Verif Require Import Proofs.HeaderProofs Proofs.CompletenessProofs.
 
 Theorem C11_value_normal_form :
   forall v, norm_value v = spec_trimall v.
@@ -63,3 +72,79 @@ Theorem C11_block_unsigned :
   forall pre post, spec_header_block (pre ++ extra ++ post) signed = spec_header_block (pre ++ post) signed.
 Proof. exact HeaderProofs.C11_block_unsigned. Qed.
 Print Assumptions C11_block_unsigned.
+
+Theorem C11_block_trimall :
+  forall hs1 hs2 signed,
+  (forall n, In n signed -> agree_on n hs1 hs2) ->
+  spec_header_block hs1 signed = spec_header_block hs2 signed.
+Proof. exact CompletenessProofs.C11_block_trimall. Qed.
+Print Assumptions C11_block_trimall.
+
+Theorem C11_unsigned_no_influence :
+  forall (H : bytes -> bytes), forall rq hs1 hs2 cf pv,
+    let rq1 := with_headers rq hs1 in
+    let rq2 := with_headers rq hs2 in
+    let signed := ap_signed (sel_params (st_canonical H rq1 cf)) in
+    
+    (forall n, In n signed -> agree_on n hs1 hs2) ->
+    
+    (forall n, In n consulted_names -> agree_on n hs1 hs2) ->
+    (cf_fold cf = true -> content_type_charset hs1 = content_type_charset hs2) ->
+    
+    (forall c, In c (if_in_request (cf_reqs cf)) -> (present (lower c) hs1 <-> present (lower c) hs2)) ->
+    
+    (forall p n, In p (prefixes (cf_reqs cf)) -> starts_with (lower p) n = true ->
+                 (present n hs1 <-> present n hs2)) ->
+    fst (validate H rq1 cf pv) = fst (validate H rq2 cf pv)
+    /\ outcome_modulo_headers hs1 hs2 (snd (validate H rq1 cf pv)) (snd (validate H rq2 cf pv)).
+Proof. exact CompletenessProofs.C11_unsigned_no_influence. Qed.
+Print Assumptions C11_unsigned_no_influence.
+
+Theorem C11_unsigned_no_influence_check :
+  forall (H : bytes -> bytes), forall rq hs1 hs2 cf pv,
+  let rq1 := with_headers rq hs1 in
+  let rq2 := with_headers rq hs2 in
+  forallb (agree_check hs1 hs2) (ap_signed (sel_params (st_canonical H rq1 cf)) ++ consulted_names) = true ->
+  (cf_fold cf = true -> first_raw (s2b "content-type") hs1 = first_raw (s2b "content-type") hs2) ->
+  presence_check (fun n => existsb (fun c => bytes_eqb (lower c) n) (if_in_request (cf_reqs cf))) hs1 hs2 = true ->
+  presence_check (fun n => existsb (fun p => starts_with (lower p) n) (prefixes (cf_reqs cf))) hs1 hs2 = true ->
+  fst (validate H rq1 cf pv) = fst (validate H rq2 cf pv)
+  /\ outcome_modulo_headers hs1 hs2 (snd (validate H rq1 cf pv)) (snd (validate H rq2 cf pv)).
+Proof. exact CompletenessProofs.C11_unsigned_no_influence_check. Qed.
+Print Assumptions C11_unsigned_no_influence_check.
+
+Theorem C11_signed_injective :
+  forall signed hs hs',
+  NoDup signed -> Forall name_ok signed ->
+  (forall n, In n signed -> values_ok hs n /\ values_ok hs' n) ->
+  spec_header_block hs signed = spec_header_block hs' signed ->
+  forall n, In n signed -> agree_on n hs hs'.
+Proof. exact CompletenessProofs.C11_signed_injective. Qed.
+Print Assumptions C11_signed_injective.
+
+Theorem C11_signed_value_change :
+  forall (H : bytes -> bytes) signed hs hs' n m p q pl,
+  NoDup signed -> Forall name_ok signed ->
+  (forall n, In n signed -> values_ok hs n /\ values_ok hs' n) ->
+  In n signed -> ~ agree_on n hs hs' ->
+  spec_header_block hs signed <> spec_header_block hs' signed
+  /\ spec_canonical_request H m p q hs signed pl <> spec_canonical_request H m p q hs' signed pl.
+Proof. exact CompletenessProofs.C11_signed_value_change. Qed.
+Print Assumptions C11_signed_value_change.
+
+Theorem C11_signed_value_change_refused :
+  forall (H : bytes -> bytes), forall rq hs1 hs2 cf pv ap n,
+    let rq1 := with_headers rq hs1 in
+    let rq2 := with_headers rq hs2 in
+    has_plus (rq_path rq) = false ->
+    presented_params H rq1 cf = Some ap -> presented_params H rq2 cf = Some ap ->
+    NoDup (ap_signed ap) -> Forall name_ok (ap_signed ap) ->
+    (forall m, In m (ap_signed ap) -> values_ok hs1 m /\ values_ok hs2 m) ->
+    In n (ap_signed ap) -> ~ agree_on n hs1 hs2 ->
+    (exists calls p b pr se, validate H rq1 cf pv = (calls, Accepted p b pr se)) ->
+    (exists k, snd (validate H rq2 cf pv) = Refused k)
+    \/ (exists key t scope creq1 creq2,
+          creq1 <> creq2 /\
+          hmac H key (spec_string_to_sign H t scope creq1) = hmac H key (spec_string_to_sign H t scope creq2)).
+Proof. exact CompletenessProofs.C11_signed_value_change_refused. Qed.
+Print Assumptions C11_signed_value_change_refused.
